@@ -169,7 +169,7 @@ def extract_reuse_info(text: str) -> ReuseInfo:
     copyright_matches = set()
     for expression in spdx_tags.pop("spdx_expressions"):
         try:
-            expressions.add(_LICENSING.parse(expression))
+            parsed = _LICENSING.parse(expression)
         except (ExpressionError, ParseError):
             _LOGGER.error(
                 _("Could not parse '{expression}'").format(
@@ -186,6 +186,10 @@ def extract_reuse_info(text: str) -> ReuseInfo:
                 )
             )
             raise ExpressionError(f"Could not parse '{expression}'") from error
+        # A tag without a value parses to None. That is no licensing
+        # information.
+        if parsed is not None:
+            expressions.add(parsed)
     for line in text.splitlines():
         match = find_copyright_match(line)
         if match is None:
